@@ -3,6 +3,7 @@ Tie for C03 and C09: facts regenerated from pkg/bip39 (constants, PBKDF2 call ar
 embedded word lists, source snapshots).  The word lists embedded in the repository must be, index
 for index, the committed official lists, and their files must hash to the official digests.
 -/
+import Iota.Tie.Bip39Code
 import Iota.Gen.Bip39
 import Iota.Tie.Expect
 import Iota.Model.Mnemonic
@@ -47,11 +48,7 @@ theorem src :
     Gen.Bip39.src_bip39_EntropyToMnemonic = Expect.Bip39_src_bip39_EntropyToMnemonic ∧
     Gen.Bip39.src_bip39_MnemonicToEntropy = Expect.Bip39_src_bip39_MnemonicToEntropy ∧
     Gen.Bip39.src_bip39_computeChecksum = Expect.Bip39_src_bip39_computeChecksum ∧
-    Gen.Bip39.src_bip39_validateEntropy = Expect.Bip39_src_bip39_validateEntropy ∧
     Gen.Bip39.src_bip39_validateMnemonic = Expect.Bip39_src_bip39_validateMnemonic ∧
-    Gen.Bip39.src_bip39_padBytes = Expect.Bip39_src_bip39_padBytes ∧
-    Gen.Bip39.src_bip39_entropyBitsToWordCount = Expect.Bip39_src_bip39_entropyBitsToWordCount ∧
-    Gen.Bip39.src_bip39_wordCountToEntropyBits = Expect.Bip39_src_bip39_wordCountToEntropyBits ∧
     Gen.Bip39.src_bip39_ParseMnemonic = Expect.Bip39_src_bip39_ParseMnemonic ∧
     Gen.Bip39.src_bip39_Mnemonic_String = Expect.Bip39_src_bip39_Mnemonic_String ∧
     Gen.Bip39.src_bip39_Mnemonic_MarshalText = Expect.Bip39_src_bip39_Mnemonic_MarshalText ∧
@@ -65,7 +62,7 @@ theorem src :
     Gen.Bip39.src_wordlists_wordList_Index = Expect.Bip39_src_wordlists_wordList_Index ∧
     Gen.Bip39.src_wordlists_English = Expect.Bip39_src_wordlists_English ∧
     Gen.Bip39.src_wordlists_Japanese = Expect.Bip39_src_wordlists_Japanese :=
-  ⟨rfl, rfl, rfl, rfl, rfl, rfl, rfl, rfl, rfl, rfl, rfl, rfl, rfl, rfl, rfl, rfl, rfl, rfl, rfl, rfl, rfl, rfl⟩
+  ⟨rfl, rfl, rfl, rfl, rfl, rfl, rfl, rfl, rfl, rfl, rfl, rfl, rfl, rfl, rfl, rfl, rfl, rfl⟩
 
 /-- everything else the package declares (imports, constants, types, variables, build constraints and the functions not
 pinned one by one) is unchanged too: no declaration of the modelled packages can change without a tie theorem failing. -/
@@ -74,5 +71,21 @@ theorem rest :
     Gen.Bip39.rest_wordlists_glue = Expect.Bip39_rest_wordlists_glue ∧
     Gen.Bip39.rest_wordlist = Expect.Bip39_rest_wordlist :=
   ⟨rfl, rfl, rfl⟩
+
+/-! ### the helpers of bip39.go without library calls, translated AS CODE = the model (proofs: `Iota/Tie/Bip39Code.lean`) -/
+open Iota.Tie.Bech32Code (bv) in
+theorem code_helpers :
+    (∀ n, 3 * n < 2 ^ 63 →
+      Gen.Bip39.code.entropyBitsToWordCount (BitVec.ofNat 64 n) = BitVec.ofNat 64 (Bip39.entropyBitsToWordCount n)) ∧
+    (∀ n, 32 * n < 2 ^ 63 →
+      Gen.Bip39.code.wordCountToEntropyBits (BitVec.ofNat 64 n) = BitVec.ofNat 64 (Bip39.wordCountToEntropyBits n)) ∧
+    (∀ (b : List UInt8) (size : Nat), b.length < 2 ^ 63 → size < 2 ^ 63 →
+      Gen.Bip39.code.padBytes (bv b) (BitVec.ofNat 64 size) =
+        if size < b.length then none else some (bv (Bip39.padBytes b size))) ∧
+    (∀ e : List UInt8, e.length < 2 ^ 59 →
+      Gen.Bip39.code.validateEntropy (bv e) =
+        if (e.length * 8) % Bip39.entropyMultiple = 0 ∧ Bip39.entropyMinBits ≤ e.length * 8 ∧ e.length * 8 ≤ Bip39.entropyMaxBits
+        then none else some "ErrInvalidEntropySize") :=
+  ⟨Bip39Code.entropyBitsToWordCount_eq, Bip39Code.wordCountToEntropyBits_eq, Bip39Code.padBytes_eq, Bip39Code.validateEntropy_eq⟩
 
 end Iota.Tie.C03
